@@ -1235,7 +1235,7 @@ def _run_ippo(case, rec):
     try:
         agent = IPPO(
             [obs_space] * 3,
-            [space, space, other],
+            [other if a.startswith("other") else space for a in AGENT_IDS],
             agent_ids=list(AGENT_IDS),
             net_config=_net_config(case["squash"]),
             batch_size=case["mb"],
@@ -1335,6 +1335,9 @@ def run_case(case):
     import torch
 
     rec = Recorder()
+    global AGENT_IDS
+    AGENT_IDS = list((["agent_0", "agent_1", "other_0"], ["agent_1", "other_0", "agent_0"], ["agent_9", "agent_10", "other_0"])[
+        int(case.get("seed", 0)) % 3 if case.get("entry") == "ippo" else 0])
     _install()
     # a watchdog alarm that interrupted an earlier case inside torch.no_grad().__enter__/__exit__ would leave
     # autograd switched off for the rest of this worker: always start from the default mode
